@@ -102,7 +102,8 @@ def safe_name(key):
 def run(prop, tier, seed=0, replay=None):
     t0 = time.time()
     ctx = Ctx(prop, tier)
-    evidence_path = os.path.join(VERIF, "evidence", "%s.json" % prop)
+    evdir = os.environ.get("LPV_EVIDENCE_DIR") or os.path.join(VERIF, "evidence")
+    evidence_path = os.path.join(evdir, "%s.json" % prop)
     os.makedirs(os.path.dirname(evidence_path), exist_ok=True)
     try:
         mod = importlib.import_module(prop)
@@ -133,7 +134,7 @@ def run(prop, tier, seed=0, replay=None):
         viol = [o for o in viol if o["key"] == want]
     new = [o for o in viol if o["key"] not in known_keys]
     old = [o for o in viol if o["key"] in known_keys]
-    vdir = os.path.join(VERIF, "evidence", "violations", prop)
+    vdir = os.path.join(evdir, "violations", prop)
     for o in old:
         print("KNOWN-FINDING: property=%s %s -- %s [%s]" % (prop, o["key"], known_keys[o["key"]].get("what", ""), o["site"]))
     for o in new:
